@@ -88,7 +88,7 @@ ExplainPath(e) ==
                           \cup want(m.name # "DeregistrationRequestUEOriginatingDeregistration" \/ (m.mand[1][1] \div 8) % 2 = a.switchOff, "switch-off bit is not the given one")
                    [] OTHER -> {"unknown constructor"} IN
         IF cs = {} THEN Ok ELSE No("C09: " \o e.fn \o ": " \o (CHOOSE x \in cs : TRUE))
-Explain(e) == CASE e.ev = "Path" -> ExplainPath(e) [] OTHER -> No("no action of the specification matches this event")
+Explain(e) == CASE e.ev = "Path" -> ExplainPath(e) [] e.ev = "Held" -> HeldVerdict(e) [] OTHER -> No("no action of the specification matches this event")
 Init == l = 1 /\ bad = 0
 Next == /\ l <= Len(Trace)
         /\ LET e == Trace[l] IN
